@@ -2416,6 +2416,29 @@ async fn handle_stun_request(
         debug!("Failed to encode STUN Response");
     }
 
+    // RFC 8445 7.3: in ICE proper (WebRTC mode) only a check that carries this
+    // session's USERNAME and a MESSAGE-INTEGRITY computed with the local ICE
+    // password may influence the ICE state - learn a candidate, move the selected
+    // pair, complete nomination. The plain reply above stays for everyone: RTP-mode
+    // peers probe reachability with bare Binding requests.
+    if inner.config.transport_mode == crate::TransportMode::WebRtc {
+        let (local_ufrag, local_password) = {
+            let local = inner.local_parameters.lock();
+            (local.username_fragment.clone(), local.password.clone())
+        };
+        let for_us = match msg.username.as_deref() {
+            Some(username) => username.split(':').next() == Some(local_ufrag.as_str()),
+            None => false,
+        };
+        if !for_us || !msg.has_valid_integrity(local_password.as_bytes()) {
+            debug!(
+                "Ignoring Binding request from {} without this session's USERNAME / MESSAGE-INTEGRITY",
+                addr
+            );
+            return;
+        }
+    }
+
     // Check if we know this candidate
     let mut known = false;
     {
